@@ -440,7 +440,12 @@ def data(rng, n):
 
 
 def map_data(rng, fn, n):
-    k = rng.randint(0, 4)
+    k = rng.randint(0, 6)
+    if k >= 5:
+        e = edge_values(rng, fn, n)
+        if e is not None:
+            return e
+        k = rng.randint(0, 4)
     if k == 0:
         return mixed(rng, n)
     if k == 1:
@@ -553,6 +558,8 @@ def pow_lines(rng, n, cont, exps, nf, cover):
 def red_data(rng, name, n):
     k = rng.randint(0, 3)
     if name in ("logsumexp", "logmeanexp"):
+        if n >= 1 and rng.chance(0.4):
+            return band_data(rng, n)
         if k == 0:
             return [rng.uniform(-1e4, 1e4) for _ in range(n)]
         if k == 1:
@@ -574,6 +581,87 @@ def red_data(rng, name, n):
     if k == 2:
         return distinct(rng, n, float(rng.randint(-40, 40)))
     return [rng.normal() for _ in range(n)]
+
+
+EXP_OVF = 709.782712893384     # ln(f64::MAX): exp overflows above
+EXP_UNF = -745.1332191019411   # exp underflows to 0 below (ln of the smallest subnormal)
+
+
+def band_data(rng, n):
+    """log-domain inputs around the thresholds of exp: a computation that does not shift by the maximum (or shifts by
+    something else) overflows / underflows here although every single exp() is finite / non-zero."""
+    k = rng.randint(0, 5)
+    near = lambda m, w: [m - rng.uniform(0.0, w) for _ in range(n - 1)] + [m]
+    if k == 0:      # maximum in [690, 709.78], all elements within 0..10 of it
+        xs = near(rng.uniform(690.0, EXP_OVF), rng.choice([0.0, 0.1, 1.0, 10.0]))
+    elif k == 1:    # maximum just below fixed candidate cut-offs, elements tightly packed
+        xs = near(rng.choice([700.0, 705.0, 708.0, 708.9, 708.99, 709.0, 709.5, 709.78, 710.0, 690.0]) - rng.choice([0.0, 1e-9, 0.01]),
+                  rng.choice([0.0, 0.5, 3.0]))
+    elif k == 2:    # all negative, maximum in the underflow band
+        xs = near(rng.uniform(EXP_UNF - 0.1, -690.0), rng.choice([0.0, 1.0, 10.0, 60.0]))
+    elif k == 3:    # straddling +-709
+        xs = [rng.choice([1, -1]) * rng.uniform(700.0, 720.0) for _ in range(n)]
+    elif k == 4:    # a band maximum with a far tail
+        xs = near(rng.uniform(695.0, 709.7), 5.0)
+        xs = [v if rng.chance(0.7) else v - rng.uniform(700.0, 1500.0) for v in xs[:-1]] + [xs[-1]]
+    else:           # mirrored: negative maxima near -709 / -745 with packed elements
+        xs = near(-rng.choice([690.0, 700.0, 708.0, 709.0, 709.78, 740.0, 745.0, 745.13, 746.0]), rng.choice([0.0, 0.5, 5.0]))
+    rng.shuffle(xs)
+    return xs
+
+
+def band_lines(rng, n, cover):
+    out = []
+    for name in ("logsumexp", "logmeanexp"):
+        for form in ("free", "meth"):
+            out.append("red %s %s %s" % (name, form, V(band_data(rng, n))))
+            cover["red_band_" + name] = cover.get("red_band_" + name, 0) + 1
+    return out
+
+
+# arguments at the thresholds of the scalar functions behind the maps
+MAP_EDGES = {
+    "exp": [EXP_OVF, 709.78, 709.79, 710.0, 709.0, EXP_UNF, -745.13, -745.14, -745.2, -708.4, -708.39, 1e-300, -1e-17, 5e-324],
+    "exp2": [1023.9999, 1024.0, 1023.0, -1074.0, -1074.5, -1075.0, -1075.1, -1022.0, 1e-17],
+    "exp_m1": [1e-300, -1e-300, 5e-324, 1e-17, -1e-17, 2.2e-16, -1.1e-16, 1e-8, -1e-8, EXP_OVF, 709.79, -36.0, -37.5, -745.2, -0.0],
+    "ln_1p": [1e-300, -1e-300, 5e-324, 1e-17, -1e-17, 2.2e-16, -1.1e-16, 1e-8, -1e-8, -1.0, -0.9999999999999999, -1.0000000000000002, 1e308, -0.0],
+    "sinh": [710.0, 710.4, 710.5, 711.0, -710.4, -710.5, 709.78, 1e-17, -1e-300, 22.0],
+    "cosh": [710.0, 710.4, 710.5, 711.0, -710.5, 709.78, 1e-9, 22.0],
+    "tanh": [1e-300, 1e-17, 19.0, 19.1, 22.0, -22.0, 1e-8],
+    "ln": [5e-324, 2.2250738585072014e-308, 1.0, 0.9999999999999999, 1.0000000000000002, 1.7976931348623157e308, 0.0, -0.0],
+    "log2": [5e-324, 2.2250738585072014e-308, 1.0, 2.0, 0.9999999999999999, 1.7976931348623157e308],
+    "log10": [5e-324, 1.0, 10.0, 1e22, 1e23, 0.9999999999999999, 1.7976931348623157e308],
+    "sqrt": [5e-324, 2.2250738585072014e-308, 1.7976931348623157e308, 4.0, 2.0],
+    "asin": [1.0, -1.0, 1.0000000000000002, 0.9999999999999999, 1e-9, 1e-300],
+    "acos": [1.0, -1.0, 1.0000000000000002, 0.9999999999999999, 1e-9],
+    "atanh": [1.0, -1.0, 0.9999999999999999, 1e-9, 1e-300, 1.0000000000000002],
+    "acosh": [1.0, 0.9999999999999999, 1.0000000000000002, 1e308, 2.0 ** 28, 2.0 ** 29],
+    "asinh": [1e-300, 1e-9, 2.0 ** -28, 2.0 ** 28, 1e308, -1e308],
+    "sin": [1e-300, 1e-9, math.pi, 1e22, 1.7976931348623157e308], "cos": [1e-9, math.pi / 2, 1e22], "tan": [math.pi / 2, 1e-9, 1e22],
+    "round": [0.5, -0.5, 0.49999999999999994, 1.5, 2.5, -2.5, 4503599627370495.5, 4503599627370496.0, 9007199254740993.0],
+    "floor": [-0.5, 0.5, -1e-300, 4503599627370495.5], "ceil": [-0.5, 0.5, 1e-300, -4503599627370495.5],
+    "recip": [5e-324, 1.7976931348623157e308, 4.4501477170144023e-308, 5.562684646268003e-309, -0.0],
+    "cbrt": [5e-324, -5e-324, 8.0, -27.0, 1.7976931348623157e308],
+}
+
+
+def edge_values(rng, fn, n):
+    """n arguments for map `fn`: its threshold arguments, their neighbours, and a few jittered copies"""
+    e = MAP_EDGES.get(fn)
+    if not e:
+        return None
+    out = []
+    for _ in range(n):
+        v = rng.choice(e)
+        r = rng.randint(0, 3)
+        if r == 1:
+            v = math.nextafter(v, INF)
+        elif r == 2:
+            v = math.nextafter(v, -INF)
+        elif r == 3:
+            v = v * (1.0 + rng.normal() * 1e-3)
+        out.append(v)
+    return out
 
 
 def red_lines(rng, n, cover, names=REDS):
@@ -640,6 +728,11 @@ def corpus():
         "powi 2 %s" % V([1.1 * i for i in range(1, 8)]), "scali 2 %s" % V([1.1 * i for i in range(1, 8)])[2:],
         # log-sum-exp far outside the exp range
         "red logsumexp free %s" % V([1e4, 1e4 - 1.0, -1e4]), "red logmeanexp meth %s" % V([-1e4, -1e4 + 2.0]),
+        # sums of finite exponentials that overflow / underflow without the max-shift (seeded change C04d)
+        "red logsumexp free %s" % V([708.9] * 3), "red logsumexp meth %s" % V([708.0] * 7), "red logsumexp free %s" % V([705.0] * 200),
+        "red logmeanexp free %s" % V([708.9] * 3), "red logmeanexp meth %s" % V([709.5, 709.7, 709.78]),
+        "red logsumexp meth %s" % V([-745.2, -746.0, -750.0]), "red logmeanexp free %s" % V([-745.2, -746.0, -750.0]),
+        "red logsumexp free %s" % V([-708.0] * 50), "red logsumexp free %s" % V([709.0, -709.0, 708.5, -745.0]),
         "red max free %s" % V([0.0, -0.0]), "red max free %s" % V([-0.0, 0.0]), "red max free %s" % V([NAN, -0.0, NAN, 0.0]),
     ]
 
@@ -660,6 +753,11 @@ def gen(rng, tier):
         lines += red_lines(rng, n, cover)
         if not quick:
             lines += red_lines(rng, n, cover)
+    # threshold bands of exp for the log-domain reductions: every length 1..40, then lengths up to 300
+    for n in list(range(1, 41)) + [rng.randint(41, 300) for _ in range(40 if quick else 400)]:
+        lines += band_lines(rng, n, cover)
+        if not quick:
+            lines += band_lines(rng, n, cover)
     for r in range(0, 7):
         for c in range(0, 7):
             lines += infnorm_lines(rng, r, c, cover)
